@@ -4,7 +4,7 @@ Each line is evaluated on the real code (`impl`), judged against the RFC-8724 re
 strings (`oracle`, harness.spec) and compared with the Lean model through the driver.
 Lines carry a leading tag `schc`/`len`; an optional trailing comment after ` # ` tells the oracle what the
 generator guarantees about the input (e.g. which properties' quantifier it lies in)."""
-import copy, importlib.util, os, sys
+import copy, importlib.util, os, sys, itertools
 from . import spec, rulegen, packets
 from .codec import *
 from .common import guarded, REPO
@@ -92,7 +92,7 @@ def impl(line):
             c = schc.compress(pk, ifc); d = schc.decompress(c, ifc)
             return f'{show_buf(c)} {show_buf(d)}'
         raise ValueError('bad op ' + op)
-    k, v = guarded(run, 20.0)
+    k, v = guarded(run, 5.0)
     return v if k == 'ok' else 'err:' + v
 
 # ------------------------------------------------------------------------------------------------ oracle
@@ -273,7 +273,6 @@ def all_prefix_free_sets(total):
     return out
 
 def gen(props, tier, rng):
-    import itertools
     props = set(props)
     q = tier == 'quick'
     # ---------------------------------------------------------------- C17
@@ -325,6 +324,20 @@ def gen(props, tier, rng):
                         yield f'schc mdecompress {e_rules(rs)} {m} # total'
                         yield f'schc decompress {m} {e_rule(r)} # total'
         if 'C03' in props:
+            # a mapping residue as the very last bits of the packet, for every small prefix-free index set in every dict order
+            for code in all_prefix_free_sets(5 if q else 6):
+                if len(code) < 2: continue
+                orders = list(itertools.permutations(code)) if len(code) <= 3 else [code, tuple(reversed(code))]
+                for order in orders:
+                    vals = rng.sample(range(16), len(order))
+                    mp = [(abuf(format(v, '04b'), rng.choice('LLR')), abuf(c, rng.choice('LLLR'))) for v, c in zip(vals, order)]
+                    rule = {'id': abuf(rulegen.rbits(rng, rng.choice([1, 3, 8]))), 'nature': 'c', 'fields': [
+                        {'id': 'a', 'len': 3, 'pos': 0, 'dir': 'B', 'mo': 'ig', 'cda': 'vs', 'tv': ('b', 'L:')},
+                        {'id': 'w', 'len': 4, 'pos': 0, 'dir': 'B', 'mo': 'mm', 'cda': 'ms', 'tv': ('m', mp)}]}
+                    for v, c in zip(vals, order):
+                        pkt = rulegen.packet_from_fields([('a', 0, rulegen.rbits(rng, 3)), ('w', 0, format(v, '04b'))], rng.choice(['', '', rulegen.rbits(rng, 3)]))
+                        sc = spec.ref_compress(pkt, rule)
+                        yield f"schc decompress {'L' if len(sc) % 8 == 0 and rng.random() < 0.5 else 'R'}:{sc} {e_rule(rule)} # conforming"
             # conforming peers use sizes the library's own compressor may never produce: boundaries of §7.4.2
             for n in [0, 14, 15, 254, 255, 256, 300] + ([] if q else [4095, 65535]):
                 for cda in ('vs', 'lsb'):
